@@ -3,7 +3,7 @@
     Model: [Account.Model] (threads = doIssue / newACMEClientWithAccount calls of any number of
     instances; CA index [c]; counters fsaves / crashes / deletes / resets are ghost). *)
 From CM Require Import Lib.Str Lib.Wire Gen.Consts Account.Model Account.KeyPem Account.Check Account.Proofs
-  Account.Recreate Account.Url Account.Examples Account.Monitor Account.KeyPemProofs Account.Tie.
+  Account.Recreate Account.Url Account.Examples Account.Monitor Account.KeyPemProofs Account.Tie Account.Final.
 From Coq Require Import Arith.
 Open Scope nat_scope.
 
@@ -159,6 +159,121 @@ Example C20_ex_monitor :
   o_ok_d (orun ex_history_old) = false.
 Proof.
   destruct ex_history_agrees as (H1 & _). split; [exact (model_agrees_hist _ _ _ _ H1)|exact (proj2 ex_history_old_rejected)].
+Qed.
+
+(** ---- What the replay and the monitor check on the implementation at each operation, as
+    theorems about the model ([Account.Final]). *)
+
+(** a failed Store of the save makes the call fail (rollback, release, error): the freshly
+    registered account is never used unpersisted *)
+Theorem C20_failed_save_is_an_error : forall s t a s1,
+  step s (Op t true) = Some s1 -> (t_pc (thr s t) = StoreReg a \/ t_pc (thr s t) = StoreKey a) ->
+  (t_pc (thr s1 t) = Unlock None \/ t_pc (thr s1 t) = Rollback a) /\
+  forall f s2, step s1 (Op t f) = Some s2 -> t_pc (thr s1 t) = Rollback a -> t_pc (thr s2 t) = Unlock None.
+Proof. exact failed_save_is_an_error. Qed.
+Print Assumptions C20_failed_save_is_an_error.
+
+(** what a call brings out of the locked region is completely in storage (registered and saved
+    by itself, or saved by another and reloaded) *)
+Theorem C20_locked_result_is_stored : forall s t m,
+  reachable s -> t_pc (thr s t) = Unlock (Some m) ->
+  lock s = Some t /\ slots s (t_ca (thr s t)) = Slot (Some (m_loc m)) (Some (m_key m)).
+Proof. exact locked_result_is_stored. Qed.
+Print Assumptions C20_locked_result_is_stored.
+
+(** the key file is written with the registration, also over a key file that is already there *)
+Theorem C20_save_writes_both_files : forall s t a s1,
+  reachable s -> t_pc (thr s t) = StoreKey a -> step s (Op t false) = Some s1 ->
+  slots s1 (t_ca (thr s t)) = Slot (Some a) (Some a) /\ t_pc (thr s1 t) = Unlock (Some (MA a a)).
+Proof. exact save_writes_both_files. Qed.
+Print Assumptions C20_save_writes_both_files.
+
+(** a Load error other than "does not exist" is never read as "absent": the call is on its way
+    out with an error in every continuation, and touches nothing any more *)
+Theorem C20_load_error_aborts : forall s t s1,
+  step s (Op t true) = Some s1 -> load_pc (t_pc (thr s t)) = true ->
+  slots s1 = slots s /\ created s1 = created s /\
+  forall ls s2, run s1 ls = Some s2 -> aborting (t_pc (thr s2 t)) = true.
+Proof. exact load_error_aborts. Qed.
+Print Assumptions C20_load_error_aborts.
+
+Theorem C20_aborting_thread_touches_nothing : forall s l s1 t,
+  step s l = Some s1 -> aborting (t_pc (thr s t)) = true -> label_tid l = Some t ->
+  slots s1 = slots s /\ created s1 = created s.
+Proof. exact aborting_thread_touches_nothing. Qed.
+Print Assumptions C20_aborting_thread_touches_nothing.
+
+(** the stored account is loaded, compared and deleted under the registration lock, and what was
+    compared is what is deleted *)
+Theorem C20_compare_and_delete_under_lock : forall s t,
+  reachable s -> in_cad (t_pc (thr s t)) = true -> lock s = Some t.
+Proof. exact compare_and_delete_under_lock. Qed.
+Print Assumptions C20_compare_and_delete_under_lock.
+
+Theorem C20_delete_sees_what_was_compared : forall s t m,
+  reachable s -> t_pc (thr s t) = DelReg m ->
+  lock s = Some t /\ s_reg (slots s (t_ca (thr s t))) = Some (m_loc m) /\
+  has_key (slots s (t_ca (thr s t))) = true /\ m_loc m <= forgotten s (t_ca (thr s t)).
+Proof. exact delete_sees_what_was_compared. Qed.
+Print Assumptions C20_delete_sees_what_was_compared.
+
+(** any CA answer to an order other than accountDoesNotExist (a faulted [Order] step: unauthorized
+    401/403, rateLimited, malformed, serverInternal, at newOrder or finalize) fails the issuance
+    and does nothing else; the recreate path is entered only on accountDoesNotExist for an account
+    the CA does not know, on the first attempt *)
+Theorem C20_ca_problem_never_deletes : forall s t s1 m i,
+  step s (Op t true) = Some s1 -> t_pc (thr s t) = Order m i ->
+  t_pc (thr s1 t) = Done None /\ slots s1 = slots s /\ created s1 = created s /\ lock s1 = lock s.
+Proof. exact ca_problem_never_deletes. Qed.
+Print Assumptions C20_ca_problem_never_deletes.
+
+Theorem C20_recreate_entered_only_if_ca_says_gone : forall s l s1 t,
+  step s l = Some s1 -> in_recreate (t_pc (thr s t)) = false -> in_recreate (t_pc (thr s1 t)) = true ->
+  l = Op t false /\ exists m, t_pc (thr s t) = Order m 0 /\ t_pc (thr s1 t) = DWantLock m /\
+                              live s (t_ca (thr s t)) (m_loc m) = false.
+Proof. exact recreate_entered_only_if_ca_says_gone. Qed.
+Print Assumptions C20_recreate_entered_only_if_ca_says_gone.
+
+(** history form (monitor clause h): a Delete of deleteAccountLocally comes after the thread's own
+    order was answered accountDoesNotExist by the CA *)
+Theorem C20_deletes_only_after_account_does_not_exist : forall evs s,
+  replay init evs = Some (s, true) -> spec_gone0 evs = true.
+Proof. exact deletes_only_after_account_does_not_exist. Qed.
+Print Assumptions C20_deletes_only_after_account_does_not_exist.
+
+(** external account bindings (monitor clause g) on the requests the model predicts *)
+Theorem C20_eab_spec_sound : forall conf recs,
+  forallb (eab_predicted conf) recs = true -> eab_spec conf recs = true.
+Proof. exact eab_spec_sound. Qed.
+Print Assumptions C20_eab_spec_sound.
+
+(** the complete specification of a doIssue history, clauses (a)-(h): [spec_ok] holds on every
+    observation the model can produce *)
+Theorem C20_hist_spec_ok_sound : forall evs f conf recs,
+  model_agrees (CHist evs f conf recs) = true -> spec_ok (CHist evs f conf recs) = true.
+Proof. exact hist_spec_ok_sound. Qed.
+Print Assumptions C20_hist_spec_ok_sound.
+
+(** ... and of an account-key history (kind 4): the same statement *)
+Theorem C20_kp_spec_ok_sound : forall c, model_agrees (CKp c) = true -> spec_ok (CKp c) = true.
+Proof. exact kspec_sound. Qed.
+Print Assumptions C20_kp_spec_ok_sound.
+
+Example C20_ex_final_hypotheses :
+  (exists s s1, reachable s /\ load_pc (t_pc (thr s 0)) = true /\ step s (Op 0 true) = Some s1) /\
+  (exists s, reachable s /\ t_pc (thr s 0) = Unlock (Some (MA 1 1))) /\
+  (exists s s1, reachable s /\ t_pc (thr s 2) = StoreKey 2 /\ s_key (slots s 0) = Some 1 /\
+                step s (Op 2 false) = Some s1) /\
+  (exists s s1, reachable s /\ in_recreate (t_pc (thr s 0)) = false /\ step s (Op 0 false) = Some s1 /\
+                in_recreate (t_pc (thr s1 0)) = true).
+Proof.
+  split; [|split; [|split]].
+  - destruct ex_load_error as (s & s1 & H1 & H2 & H3 & _). exists s, s1. auto.
+  - destruct ex_locked_result as (s & H1 & H2). exists s. split; [eexists; exact H1|exact H2].
+  - destruct ex_save_over_old_key as (s & s1 & H1 & H2 & H3 & H4 & _). exists s, s1.
+    split; [eexists; exact H1|]. rewrite H3. auto.
+  - destruct ex_recreate_entered as (s & s1 & H1 & H2 & H3 & H4). exists s, s1.
+    split; [eexists; exact H1|auto].
 Qed.
 
 (** ---- With a configured account key ([AccountKeyPEM]; model [Account.KeyPem]: any number of
